@@ -582,6 +582,10 @@ class Producer(object):
                 # associated failure
                 for p, f in failed_payloads_with_errs:
                     t_and_p = TopicAndPartition(p.topic, p.partition)
+                    if not isinstance(f, Failure):
+                        # An error code in the broker's response is recorded
+                        # as an exception instance: errback, don't callback.
+                        f = Failure(f)
                     _deliver_result(deferredsByTopicPart[t_and_p], f)
                 return
             # Retries remain!  Schedule one...
